@@ -8,7 +8,8 @@ TIE = [('GambitV.Tie.Kmers', 'GambitV.Tie.Kmers')]
 RULE = ('streams: all k-mers over ACGT for k<=6 (quick) / 8 (thorough) [exhaustive]; all byte strings of length <=2 '
         'over 0..255 [exhaustive]; all-A/all-T/single-T for every k<=40; random mixed-case k-mers with and without '
         'one foreign byte, k<=40; random indices < 2^64 with k<=32 (and k up to 40 for the decoder); '
-        'str/bytes/bytearray/Seq inputs. Non-trivial = distinct case whose k-mer has k>=1.')
+        'str/bytes/bytearray/Seq inputs x every nucleotide-like foreign letter (U, IUPAC, gaps) in every position of a 5-mer; indices as Python ints and '
+        'numpy scalars (u8 above 2^53, i8, u4, i4, u2); one bytearray refilled in place between consecutive calls. Non-trivial = distinct case whose k-mer has k>=1.')
 TRUSTED = ['harness/props/c07.py + Driver/C07.lean (transport)', 'CPython int<->uint64 conversion at the Cython boundary']
 ASSUMPTIONS = ['the compiled kmers*.so is what Python imports; the .pyx text is tied separately by GambitV.Tie.Kmers']
 
@@ -47,9 +48,22 @@ def check(ctx, case):
 			lines.append(f'gen.encrc {hx(b)} {_enc(kmers.kmer_to_index_rc, arg)}')
 			lines.append(f'gen.rc {hx(b)} {hx(revcomp(b))}')
 	elif kind == 'index':
+		import numpy as np
 		i, k = case['i'], case['k']
-		lines.append(f'c07.dec {i} {k} {hx(kmers.index_to_kmer(i, k))}')
-		lines.append(f'gen.dec {i} {k} {hx(kmers.index_to_kmer(i, k))}')
+		form = case.get('iform', 'int')
+		arg = i if form == 'int' else np.dtype(form).type(i)      # numpy scalars: what an element of a signature array is
+		lines.append(f'c07.dec {i} {k} {hx(kmers.index_to_kmer(arg, k))}')
+		lines.append(f'gen.dec {i} {k} {hx(kmers.index_to_kmer(arg, k))}')
+	elif kind == 'reuse':
+		# one mutable buffer object refilled in place between consecutive calls to the same encoder
+		kms = [bytes.fromhex(h) for h in case['kmers']]
+		buf = bytearray(kms[0])
+		for fn, op in ((kmers.kmer_to_index, 'c07.enc'), (kmers.kmer_to_index_rc, 'c07.encrc')):
+			for km in kms:
+				buf[:] = km
+				lines.append(f'{op} {hx(km)} {_enc(fn, buf)}')
+				if case.get('twice'):
+					lines.append(f'{op} {hx(km)} {_enc(fn, buf)}')
 	elif kind == 'dtype':
 		k = case['k']
 		dt = kmers.index_dtype(k)
@@ -81,10 +95,18 @@ def run(ctx):
 			sub({'kind': 'kmer', 'hex': s.hex()}, 'boundary')
 		sub({'kind': 'dtype', 'k': k}, 'dtype')
 	sub({'kind': 'dtype', 'k': 0}, 'dtype')
+	# every input type x every nucleotide-like foreign letter (RNA U, IUPAC codes, gap characters) in every position of a 5-mer
+	for form in ('bytes', 'str', 'bytearray', 'seq'):
+		for fb in b'UuNnRYKMSWBDHVrykmswbdhv-.*Xx':
+			for pos in range(5):
+				km = bytearray(b'ACGTA'); km[pos] = fb
+				sub({'kind': 'kmer', 'hex': bytes(km).hex(), 'form': form}, 'foreign-letter-grid')
 	# decoder: boundary indices
 	for k in range(0, 33):
 		for i in {0, 1, 4 ** k - 1, 4 ** k // 2, min(4 ** k, 2 ** 64 - 1), 2 ** 64 - 1}:
 			sub({'kind': 'index', 'i': i, 'k': k}, 'dec-boundary')
+			if i >= 2 ** 53 - 1:
+				sub({'kind': 'index', 'i': i, 'k': k, 'iform': 'u8'}, 'dec-boundary-u8')
 	ctx.exhaustive = [f'all ACGT k-mers k<={kmax}', 'all byte strings of length 1 and 2']
 	# random
 	n = ctx.q(4000, 60000)
@@ -98,10 +120,23 @@ def run(ctx):
 			k = rng.randint(1, 40) if rng.random() < 0.15 else rng.randint(1, 32)
 			s = bytearray(rng.choice(alph if rng.random() < 0.5 else b'ACGT') for _ in range(k))
 			if rng.random() < 0.3:
-				s[rng.randrange(k)] = rng.choice([rng.randrange(256), ord('N'), ord('n'), 0x21, 0x61 ^ 0x20, 0xC1, 0xE1, 0x41 | 0x80])
+				s[rng.randrange(k)] = rng.choice([rng.randrange(256), ord('N'), ord('n'), ord('U'), ord('u'), 0x21, 0x61 ^ 0x20, 0xC1, 0xE1, 0x41 | 0x80])
 			sub({'kind': 'kmer', 'hex': bytes(s).hex(), 'form': rng.choice(forms)}, 'rand-kmer')
 		else:
 			k = rng.randint(0, 40) if rng.random() < 0.2 else rng.randint(0, 32)
 			i = rng.randrange(2 ** 64) if rng.random() < 0.5 else rng.randrange(4 ** min(k, 32) + 1)
 			i = min(i, 2 ** 64 - 1)
-			sub({'kind': 'index', 'i': i, 'k': k}, 'rand-index')
+			iforms = ['int', 'u8'] + (['i8'] if i < 2 ** 63 else []) + (['u4', 'i4'] if i < 2 ** 31 else []) + (['u2'] if i < 2 ** 16 else [])
+			sub({'kind': 'index', 'i': i, 'k': k, 'iform': rng.choice(iforms)}, 'rand-index')
+	# buffer reuse
+	for j in range(ctx.q(300, 3000)):
+		if not ctx.time_left(0.95):
+			break
+		k = rng.randint(1, 32)
+		kms = []
+		for _ in range(rng.randint(2, 6)):
+			km = bytearray(rng.choice(alph) for _ in range(k))
+			if rng.random() < 0.25:
+				km[rng.randrange(k)] = rng.choice(b'NnUu-\x00')
+			kms.append(bytes(km).hex())
+		sub({'kind': 'reuse', 'kmers': kms, 'twice': rng.random() < 0.3}, 'buffer-reuse')
